@@ -229,6 +229,423 @@ def profile_cli18(rnd, n, thorough, out):
 
 # --------------------------------------------------------------------------------------- main
 
+# --------------------------------------------------------------------------------------- C16 / C17 / C19
+
+def file_text(path, kind, rnd, extra=True):
+    """a test file whose outcome against the fake engine is `kind`; every SQL line carries the
+    marker ` -- F<path>` so that the monitor can attribute it"""
+    m = f" -- F{path}"
+    recs = []
+    def ok_rec():
+        c = rnd.randint(0, 4) if extra else 0
+        if c == 0:
+            return f"statement ok\nins {rnd.randint(1, 99)}{m}\n"
+        if c == 1:
+            v = rnd.randint(1, 99)
+            return f"query T\nselect {v}{m}\n----\n{v}\n"
+        if c == 2:
+            return f"connection c{rnd.randint(1, 2)}\nstatement ok\nins 7{m}\n"
+        if c == 3:
+            return f"control substitution on\n\nstatement ok\ndbname $__DATABASE__{m}\n\ncontrol substitution off\n"
+        return f"statement error\nfail{m}\n"
+    n_before = rnd.randint(0, 3)
+    for _ in range(n_before):
+        recs.append(ok_rec())
+    if kind == "pass":
+        recs.append(ok_rec())
+    elif kind == "fail":
+        recs.append(f"statement ok\nfail{m}\n")
+        recs.append(ok_rec())
+    elif kind == "mismatch":
+        recs.append(f"query T\nselect 1{m}\n----\n2\n")
+    elif kind == "parse":
+        recs.append("statement maybe\nx\n")
+    elif kind == "die":
+        recs.append(f"statement ok\ndie{m}\n")
+    elif kind == "refuse":
+        recs.append(f"statement ok\nrefuse{m}\n")
+    return "\n".join(recs)
+
+
+GROUND = {"pass": "pass", "fail": "fail", "mismatch": "fail", "parse": "fail", "die": "fail", "refuse": "refuse"}
+TAGMAP = {"OK": "ok", "FAILED": "err", "SKIPPED": "skipped", "CANCELLED": "cancelled", None: "none"}
+
+
+def canon_events(events, mgmt_db, cancel_at=None):
+    """engine log -> monitor events (sessions numbered by first appearance)"""
+    sess = {}
+    out = []
+    inserted = cancel_at is None
+    for e in events:
+        if not inserted and e["t"] >= cancel_at:
+            out.append("cancel")
+            inserted = True
+        k = sess.setdefault(e["pid"], len(sess))
+        if e["ev"] == "connect":
+            out.append(f"connect {k} {hx(e['db'])}")
+        elif e["ev"] == "sql":
+            text = bytes.fromhex(e["args"][1]).decode("utf-8", "replace")
+            mm = re.match(r"(CREATE|DROP) DATABASE (.*);$", text)
+            if mm and e["db"] == mgmt_db:
+                out.append(("create " if mm.group(1) == "CREATE" else "drop ") + hx(mm.group(2)))
+            else:
+                out.append(f"sql {k} {hx(text)}")
+        elif e["ev"] in ("eof", "die"):
+            # `die`: the engine ended the session itself; a later `eof` of the same process is not logged
+            out.append(f"eof {k}")
+    if not inserted:
+        out.append("cancel")
+    return out
+
+
+def climon_case(jobs, keep, exit_code, cancel_cause, files, kinds, tags, ju, evs):
+    cases = ju["cases"] if ju else []
+    byname = {}
+    for (n, st) in cases:
+        byname.setdefault(n, []).append(st)
+    refused = any(GROUND[kinds[f]] == "refuse" and TAGMAP[tags.get(f, [None])[0]] == "err" for f in files)
+    s = f"climon {jobs} {1 if keep else 0} {1 if refused else 0} {hx('postgres')} {exit_code if exit_code >= 0 else 255} {1 if cancel_cause else 0} {len(cases)} {len(files)}"
+    for f in files:
+        name = test_case_name(f)
+        st = byname.get(name, [None])
+        s += f" {hx(f)} {GROUND[kinds[f]]} {TAGMAP[tags.get(f, [None])[0]]} {hx(name) if name in byname else '-'} {st[0] or 'none'}"
+    s += f" {len(evs)} " + " ".join(evs) if evs else " 0"
+    return s
+
+
+def cli_run_set(cwd, files, kinds, jobs, fail_fast, keep, rnd, sigint_at=0, latency=0, slack_ms=250):
+    args = ["--junit", "out"]
+    if jobs:
+        args += ["-j", str(jobs)]
+    if fail_fast:
+        args.append("--fail-fast")
+    if keep:
+        args.append("--keep-db-on-failure")
+    args.append("t/*.slt")
+    env = {}
+    if sigint_at:
+        env["FAKE_SIGINT_AT"] = str(sigint_at)
+    if latency:
+        env["FAKE_LATENCY_MS"] = str(latency)
+    jpath = os.path.join(cwd, "out-junit.xml")
+    if os.path.exists(jpath):
+        os.remove(jpath)
+    r = run_cli(cwd, args, env, timeout=25)
+    tags = statuses(r.stdout, files)
+    ju = junit(jpath)
+    cancel_at = None
+    sig = [e for e in r.events if e["ev"] == "sigint"]
+    if sig:
+        cancel_at = sig[0]["t"] + slack_ms * 1_000_000
+    evs = canon_events(r.events, "postgres", cancel_at)
+    cause = bool(sig) or (fail_fast and any(GROUND[kinds[f]] != "pass" for f in files)) or \
+        any(GROUND[kinds[f]] == "refuse" for f in files)
+    oracle = None
+    if r.timeout:
+        oracle = "the CLI did not exit within 25 s"
+    # no interleaving: every file's block is contiguous (one header per file)
+    for f in files:
+        if len(tags.get(f, [])) > 1:
+            oracle = f"file {f} has {len(tags[f])} status blocks on stdout"
+    return r, tags, ju, evs, cause, oracle
+
+
+def write_set(cwd, n, rnd, kinds_pool):
+    os.makedirs(os.path.join(cwd, "t"), exist_ok=True)
+    files, kinds = [], {}
+    for i in range(n):
+        f = f"t/f{i:02d}{rnd.choice(['', '-x', '.y', '_z'])}.slt"
+        k = rnd.choice(kinds_pool)
+        open(os.path.join(cwd, f), "w").write(file_text(f, k, rnd))
+        files.append(f)
+        kinds[f] = k
+    files.sort()   # glob order
+    return files, kinds
+
+
+def profile_cli16(rnd, n, thorough, out):
+    for si in range(n):
+        cwd = fresh_dir(f"c16_{si}")
+        nfiles = rnd.randint(1, 12)
+        pool = rnd.choice([["pass"], ["pass", "pass", "pass", "fail"], ["pass", "fail", "mismatch", "parse", "die"],
+                           ["pass", "pass", "refuse"], ["pass", "pass", "pass", "pass", "parse"]])
+        files, kinds = write_set(cwd, nfiles, rnd, pool)
+        for mode in (["serial", "par"] if not thorough else ["serial", "par", "par"]):
+            jobs = 0 if mode == "serial" else rnd.randint(1, 8)
+            ff = rnd.random() < 0.4
+            lat = rnd.choice([0, 0, 5, 20])
+            r, tags, ju, evs, cause, oracle = cli_run_set(cwd, files, kinds, jobs, ff, False, rnd, latency=lat)
+            tag = f"cli16 set={si} mode={mode} jobs={jobs} failfast={ff} kinds={[kinds[f] for f in files]}"
+            if mode == "serial":
+                # deterministic: diffed against the model's fold
+                impl = f"exit={0 if r.exit == 0 else 1} " + " ".join(TAGMAP[tags.get(f, [None])[0]] for f in files)
+                out.add(f"serial {1 if ff else 0} {len(files)} " + " ".join(GROUND[kinds[f]] for f in files), impl, tag, None)
+            out.add(climon_case(jobs, False, r.exit, cause, files, kinds, tags, ju, evs), "accept", tag,
+                    ("C16|" + oracle) if oracle else None)
+        shutil.rmtree(cwd, ignore_errors=True)
+
+
+def profile_cli17(rnd, n, thorough, out):
+    for si in range(n):
+        cwd = fresh_dir(f"c17_{si}")
+        nfiles = rnd.randint(1, 10)
+        pool = rnd.choice([["pass"], ["pass", "pass", "fail"], ["pass", "fail", "die", "parse"]])
+        files, kinds = write_set(cwd, nfiles, rnd, pool)
+        for _ in range(2 if not thorough else 4):
+            jobs = rnd.randint(1, 8)
+            keep = rnd.random() < 0.5
+            lat = rnd.choice([0, 3, 10, 30])
+            r, tags, ju, evs, cause, oracle = cli_run_set(cwd, files, kinds, jobs, False, keep, rnd, latency=lat)
+            tag = f"cli17 set={si} jobs={jobs} keep={keep} latency={lat} kinds={[kinds[f] for f in files]}"
+            out.add(climon_case(jobs, keep, r.exit, cause, files, kinds, tags, ju, evs), "accept", tag,
+                    ("C17|" + oracle) if oracle else None)
+        shutil.rmtree(cwd, ignore_errors=True)
+
+
+def profile_cli19(rnd, n, thorough, out):
+    for si in range(n):
+        cwd = fresh_dir(f"c19_{si}")
+        nfiles = rnd.randint(2, 5)
+        files, kinds = write_set(cwd, nfiles, rnd, ["pass"])
+        jobs = rnd.choice([0, 0, 2, 3, 4])
+        lat = 150
+        # uninterrupted run: number of requests
+        r0, tags0, ju0, evs0, _, _ = cli_run_set(cwd, files, kinds, jobs, False, False, rnd, latency=0)
+        nreq = len([e for e in r0.events if e["ev"] == "sql"])
+        ks = list(range(1, nreq + 1))
+        if not thorough and len(ks) > 6:
+            ks = sorted(rnd.sample(ks, 6))
+        for k in ks:
+            r, tags, ju, evs, cause, oracle = cli_run_set(cwd, files, kinds, jobs, False, False, rnd, sigint_at=k, latency=lat)
+            tag = f"cli19 set={si} jobs={jobs} sigint_at={k}/{nreq}"
+            if oracle is None and r.exit == 0:
+                oracle = "exit status 0 although the run was interrupted by Ctrl-C"
+            if oracle is None and ju is None:
+                oracle = "no JUnit report was written after Ctrl-C"
+            out.add(climon_case(jobs, False, r.exit, True, files, kinds, tags, ju, evs), "accept", tag,
+                    ("C19|" + oracle) if oracle else None)
+        # fail-fast: the first failing file at every position; the others slow enough to be in flight
+        for pos in range(nfiles):
+            kinds2 = {f: ("fail" if i == pos else "pass") for i, f in enumerate(files)}
+            for i, f in enumerate(files):
+                open(os.path.join(cwd, f), "w").write(file_text(f, kinds2[f], rnd, extra=False))
+            r, tags, ju, evs, cause, oracle = cli_run_set(cwd, files, kinds2, jobs, True, False, rnd, latency=(60 if jobs else 0))
+            tag = f"cli19 set={si} jobs={jobs} failfast first-failure-at={pos}"
+            if oracle is None and r.exit == 0:
+                oracle = "exit status 0 although a file failed"
+            # serial fail-fast is deterministic: nothing after the failing file may start
+            if oracle is None and jobs == 0:
+                started = [f for f in files if any(e["ev"] == "sql" and (" -- F" + f) in bytes.fromhex(e["args"][1]).decode("utf-8", "replace") for e in r.events)]
+                late = [f for f in started if files.index(f) > pos]
+                if late:
+                    oracle = f"files started after the first failure under --fail-fast: {late}"
+            out.add(climon_case(jobs, False, r.exit, True, files, kinds2, tags, ju, evs), "accept", tag,
+                    ("C19|" + oracle) if oracle else None)
+        shutil.rmtree(cwd, ignore_errors=True)
+
+
+# --------------------------------------------------------------------------------------- CLI --format / --override
+
+def engine_answer(sql):
+    """what fake_engine answers, as a mock-DB answer token list (external driver: rows without types,
+    errors as `sql failed <text>`)"""
+    core = sql.split(" -- F")[0]
+    if core.startswith("select "):
+        row = [v.strip() for v in core[len("select "):].split(",")]
+        return "rows x 1 " + str(len(row)) + "".join(" " + hx(v) for v in row)
+    if core.startswith("rows "):
+        n = int(core[5:].strip() or 0)
+        return f"rows x {n}" + "".join(f" 1 {hx('r' + str(i))}" for i in range(n))
+    if core.startswith("fail"):
+        return "error " + hx("sql failed boom")
+    if core.startswith("err "):
+        return "error " + hx("sql failed " + core[4:])
+    return "rows x 0"
+
+
+UPD_RECORDS = [
+    ("statement ok", "ins {n}", ""),
+    ("statement ok", "fail {n}", ""),
+    ("statement count 3", "rows {c}", ""),
+    ("statement error", "fail {n}", ""),
+    ("statement error", "ins {n}", ""),
+    ("statement error", "err line1 {n}", "----\nsql failed line1 {n}\n\n"),
+    ("statement error", "err other {n}", "----\nsomething else\n\n"),
+    ("query T", "select {n}", "----\n{n}\n"),
+    ("query T", "select {n}", "----\n{m}\n"),
+    ("query TT rowsort", "rows {c}", "----\nwrong\n"),
+    ("query T valuesort lbl", "select {n}, {m}", "----\n{n} {m}\n"),
+    ("query error", "fail {n}", ""),
+    ("query error", "select {n}", ""),
+    ("query T retry 2 backoff 0s", "select {n}", "----\nnope\n"),
+    ("statement ok retry 2 backoff 0s", "fail {n}", ""),
+]
+
+
+def gen_cli_tree(rnd):
+    """root.slt + included files (same stem, different extension; nested); SQL texts are engine
+    directives and unique per record"""
+    ctr = [0]
+    sqls = []
+
+    def records(k):
+        out = ""
+        for _ in range(k):
+            c = rnd.randint(0, 13)
+            if c == 0:
+                out += "# comment  \n"
+            elif c == 1:
+                out += "\n"
+            elif c == 2:
+                out += "halt\n\n"
+            elif c == 3:
+                out += rnd.choice(["control sortmode rowsort\n\n", "hash-threshold 2\n\n", "onlyif external\n", "skipif external\n",
+                                   "connection c1\n", "sleep 1ms\n\n", "subtest s\n\n"])
+            else:
+                hdr, sql, block = rnd.choice(UPD_RECORDS)
+                ctr[0] += 1
+                n, m, cnt = ctr[0] * 10 + 1, ctr[0] * 10 + 2, rnd.randint(0, 4)
+                q = sql.format(n=n, m=m, c=cnt) + f" #{ctr[0]}" if not sql.startswith("rows") else sql.format(n=n, m=m, c=cnt)
+                if q.startswith("rows"):
+                    q = q  # `rows <c>`: may repeat; the answer depends on the text only
+                sqls.append(q)
+                out += f"{hdr}\n{q}\n{block.format(n=n, m=m)}\n"
+        return out
+
+    files = []
+    names = rnd.choice([[], ["inc/a.slt"], ["inc/a.slt", "inc/a.inc"], ["inc/a.slt", "inc/b.slt"], ["root.inc"]])
+    contents = {}
+    for nm in reversed(names):
+        body = records(rnd.randint(0, 4))
+        if nm == "inc/a.slt" and "inc/a.inc" in names:
+            body += "include a.inc\n\n" + records(rnd.randint(0, 2))
+        contents[nm] = body
+    root = records(rnd.randint(0, 4))
+    for nm in names:
+        if nm == "inc/a.inc":
+            continue
+        root += f"include {nm}\n\n" + records(rnd.randint(0, 2))
+    # endings: the CLI's own copy of the trailing-newline loop
+    def ending(t):
+        c = rnd.randint(0, 5)
+        if c == 0:
+            return t.rstrip("\n")
+        if c == 1:
+            return t + "\n" * rnd.randint(1, 20)
+        return t
+    tree = [(nm, ending(contents[nm])) for nm in names] + [("root.slt", ending(root))]
+    return tree, sqls
+
+
+def upd_case(op, tree, sqls, k=None):
+    s = f"{op} 0 {hx(chr(9))} 0 0 {len(tree)}" + "".join(f" {hx(p)} {hx(c)}" for p, c in tree) + f" {hx('root.slt')} 0 0"
+    uniq = []
+    for q in sqls:
+        if q not in uniq:
+            uniq.append(q)
+    s += f" db {hx('external')} 0 {len(uniq)}" + "".join(f" {hx(q)} 1 {engine_answer(q)}" for q in uniq)
+    s += " rows x 0 0 exit 0 x K " + ("-" if k is None else str(k))
+    return s
+
+
+def run_upd(cwd, tree, mode, kill_at=0):
+    for p, c in tree:
+        os.makedirs(os.path.dirname(os.path.join(cwd, p)) or cwd, exist_ok=True)
+        open(os.path.join(cwd, p), "w").write(c)
+    env = {"FAKE_SIGKILL_AT": str(kill_at)} if kill_at else {}
+    r = run_cli(cwd, [mode, "root.slt"], env, timeout=25)
+    after = []
+    for p, _ in tree:
+        try:
+            after.append(open(os.path.join(cwd, p), "rb").read().decode("utf-8", "replace"))
+        except FileNotFoundError:
+            after.append("")
+    left = []
+    for d, _, fs in os.walk(cwd):
+        for f in fs:
+            rel = os.path.relpath(os.path.join(d, f), cwd)
+            if rel not in [p for p, _ in tree] and not rel.startswith("events.log"):
+                left.append(rel)
+    left.sort()
+    # database trace from the engine log
+    sess, tr = {}, []
+    for e in r.events:
+        k = sess.setdefault(e["pid"], len(sess))
+        if e["ev"] == "connect":
+            tr.append(f"make {k} 1")
+        elif e["ev"] == "sql":
+            tr.append(f"run {k} x{e['args'][1]}")
+    killed = any(e["ev"] == "sigkill" for e in r.events)
+    if killed and tr and tr[-1].startswith("run"):
+        tr.pop()          # the request that triggered the kill: the model's prefix ends before it
+    status = "panic" if killed else ("ok" if "[FAILED]" not in r.stdout and r.exit == 0 else "err")
+    line = f"{status} F {len(tree)}" + "".join(f" {hx(p)} {hx(c)}" for (p, _), c in zip(tree, after))
+    line += f" L {len(left)}" + "".join(" " + hx(x) for x in left) + " S 0 T " + str(len(tr)) + ("".join(" " + x for x in tr))
+    return r, after, left, line, killed
+
+
+def profile_cliupd(rnd, n, thorough, out):
+    for si in range(n):
+        tree, sqls = gen_cli_tree(rnd)
+        # --format (twice: idempotent)
+        cwd = fresh_dir(f"upd_{si}")
+        r, after, left, line, _ = run_upd(cwd, tree, "--format")
+        oracle = None
+        if r.timeout:
+            oracle = "C08|--format did not terminate within 25 s"
+        elif left:
+            oracle = f"C08|debris after --format: {left}"
+        else:
+            for (p, old), c in zip(tree, after):
+                if c and (not c.endswith("\n") or c.endswith("\n\n")):
+                    oracle = f"C08|{p} does not end with exactly one newline after --format"
+        if oracle is None:
+            tree2 = [(p, c) for (p, _), c in zip(tree, after)]
+            r2, after2, _, _, _ = run_upd(cwd, tree2, "--format")
+            if after2 != after:
+                oracle = "C05|a second --format changed the files again"
+        out.add(upd_case("cliformat", tree, sqls), line, f"cliupd set={si} format", oracle)
+        shutil.rmtree(cwd, ignore_errors=True)
+        # --override
+        cwd = fresh_dir(f"upd_{si}")
+        r, after, left, line, _ = run_upd(cwd, tree, "--override")
+        oracle = None
+        if r.timeout:
+            oracle = "C08|--override did not terminate within 25 s"
+        elif left:
+            oracle = f"C08|debris after --override: {left}"
+        nreq = len([e for e in r.events if e["ev"] == "sql"])
+        final = after
+        if oracle is None and "[FAILED]" not in r.stdout:
+            # C06 through the CLI: the overridden tree passes against the same engine and is a fixed point
+            tree2 = [(p, c) for (p, _), c in zip(tree, after)]
+            for p, c in tree2:
+                open(os.path.join(cwd, p), "w").write(c)
+            rr = run_cli(cwd, ["root.slt"], timeout=25)
+            if rr.exit != 0:
+                m = re.search(r"(?s)Caused by:(.{0,300})", rr.stdout)
+                oracle = "C06|the overridden tree does not pass against the same engine: " + (m.group(1).strip() if m else f"exit {rr.exit}")
+            else:
+                r3, after3, _, _, _ = run_upd(cwd, tree2, "--override")
+                if after3 != after:
+                    oracle = "C06|a second --override changed the files again (not a fixed point)"
+        out.add(upd_case("cliupdate", tree, sqls), line, f"cliupd set={si} override", oracle)
+        shutil.rmtree(cwd, ignore_errors=True)
+        # SIGKILL when the engine receives its k-th request, for every k
+        ks = list(range(1, nreq + 1))
+        if not thorough and len(ks) > 4:
+            ks = sorted(rnd.sample(ks, 4))
+        for k in ks:
+            cwd = fresh_dir(f"upd_{si}")
+            r, after, left, line, killed = run_upd(cwd, tree, "--override", kill_at=k)
+            oracle = None
+            for (p, old), c, fin in zip(tree, after, final):
+                if c != old and c != fin:
+                    oracle = f"C08|after SIGKILL at request {k} file {p} holds neither its old nor its new content"
+            out.add(upd_case("cliupdate", tree, sqls, k - 1), line, f"cliupd set={si} override kill_at={k}/{nreq}", oracle)
+            shutil.rmtree(cwd, ignore_errors=True)
+
+
 def replay_line(line):
     """re-run a deterministic case on the current CLI build"""
     t = line.split(" ")
@@ -267,7 +684,7 @@ def replay_line(line):
     return "not-replayable (schedule-dependent run: see the recorded observation in the replay file)"
 
 
-PROFILES = {"cli18": profile_cli18}
+PROFILES = {"cli18": profile_cli18, "cli16": profile_cli16, "cli17": profile_cli17, "cli19": profile_cli19, "cliupd": profile_cliupd}
 
 
 def main():
